@@ -121,15 +121,20 @@ class Ed25519Key(PKey):
             private_data = private_ciphertext
         else:
             cipher = Transport._cipher_info[ciphername]
-            key = bcrypt.kdf(
-                password=b(password),
-                salt=bcrypt_salt,
-                desired_key_bytes=cipher["key-size"] + cipher["block-size"],
-                rounds=bcrypt_rounds,
-                # We can't control how many rounds are on disk, so no sense
-                # warning about it.
-                ignore_few_rounds=True,
-            )
+            try:
+                key = bcrypt.kdf(
+                    password=b(password),
+                    salt=bcrypt_salt,
+                    desired_key_bytes=cipher["key-size"]
+                    + cipher["block-size"],
+                    rounds=bcrypt_rounds,
+                    # We can't control how many rounds are on disk, so no
+                    # sense warning about it.
+                    ignore_few_rounds=True,
+                )
+            except ValueError as e:
+                # zero rounds or empty salt
+                raise SSHException(str(e))
             decryptor = Cipher(
                 cipher["class"](key[: cipher["key-size"]]),
                 cipher["mode"](key[cipher["key-size"] :]),
